@@ -2,6 +2,7 @@
 package recfs
 
 import (
+	"time"
 	"context"
 	"fmt"
 	"os"
@@ -29,6 +30,9 @@ type FS struct {
 	events []Event
 	// Decide returns true if the call must fail.  Called with the lock held.
 	Decide func(op, mp string, seq int) bool
+	// Slow, when set, is asked before a Check takes the lock: the call sleeps that long first (a registry that
+	// answers late), so that checks issued in parallel really overlap.
+	Slow func(op, mp string) time.Duration
 	// BindSrc, when set, makes every successful Mount a real bind mount of this (empty) directory onto the
 	// mountpoint, so that the kernel protects a mounted directory from deletion exactly as it does for the real
 	// FUSE mounts.  Requires root.
@@ -84,6 +88,11 @@ func (f *FS) Mount(ctx context.Context, mountpoint string, labels map[string]str
 
 // Check implements snapshot.FileSystem.
 func (f *FS) Check(ctx context.Context, mountpoint string, labels map[string]string) error {
+	if f.Slow != nil {
+		if d := f.Slow("check", mountpoint); d > 0 {
+			time.Sleep(d)
+		}
+	}
 	f.mu.Lock()
 	defer f.mu.Unlock()
 	if f.record("check", mountpoint, nil) {
